@@ -22,6 +22,9 @@ spec fn h_basic(h: BuildHelper) -> bool {
 // list structure over the index range [lo, hi), stated over an abstract cell function so that the
 // list lemmas are free of ring arithmetic
 spec fn l_vac(f: spec_fn(int) -> ListItem, lo: int, hi: int, i: int) -> bool { lo <= i < hi && !f(i).used_index }
+// same predicate under a second name, used in the *conclusions* of the link clause so that instantiating it does not
+// create a new trigger term (l_vac(next(i)) would re-trigger the clause: next, next.next, ... a matching loop)
+spec fn in_vac(f: spec_fn(int) -> ListItem, lo: int, hi: int, i: int) -> bool { lo <= i < hi && !f(i).used_index }
 
 #[verifier::opaque]
 spec fn list_ok(f: spec_fn(int) -> ListItem, head: Option<u32>, lo: int, hi: int) -> bool {
@@ -32,9 +35,9 @@ spec fn list_ok(f: spec_fn(int) -> ListItem, head: Option<u32>, lo: int, hi: int
         })
     // (c) next/prev are mutually inverse on the vacant indices
     &&& forall|i: int| #[trigger] l_vac(f, lo, hi, i) ==> {
-            &&& l_vac(f, lo, hi, f(i).next as int)
+            &&& in_vac(f, lo, hi, f(i).next as int)
             &&& f(f(i).next as int).prev == i
-            &&& l_vac(f, lo, hi, f(i).prev as int)
+            &&& in_vac(f, lo, hi, f(i).prev as int)
             &&& f(f(i).prev as int).next == i
         }
     // (e) next(i) is the least vacant index above i, if there is one
@@ -80,6 +83,35 @@ proof fn lemma_head(f: spec_fn(int) -> ListItem, head: Option<u32>, lo: int, hi:
     reveal(list_ok);
 }
 
+// pointwise accessors of the opaque list predicate (keep the quantifiers of list_ok out of client proofs)
+proof fn lemma_links(f: spec_fn(int) -> ListItem, head: Option<u32>, lo: int, hi: int, i: int)
+    requires list_ok(f, head, lo, hi), l_vac(f, lo, hi, i),
+    ensures l_vac(f, lo, hi, f(i).next as int), f(f(i).next as int).prev == i, l_vac(f, lo, hi, f(i).prev as int), f(f(i).prev as int).next == i,
+{ reveal(list_ok); }
+
+proof fn lemma_order(f: spec_fn(int) -> ListItem, head: Option<u32>, lo: int, hi: int, i: int, j: int)
+    requires list_ok(f, head, lo, hi), l_vac(f, lo, hi, i), l_vac(f, lo, hi, j), i < j,
+    ensures i < f(i).next <= j,
+{ reveal(list_ok); }
+
+proof fn lemma_wrap(f: spec_fn(int) -> ListItem, head: Option<u32>, lo: int, hi: int, i: int)
+    requires list_ok(f, head, lo, hi), l_vac(f, lo, hi, i), f(i).next <= i,
+    ensures head == Some(f(i).next),
+{ reveal(list_ok); }
+
+proof fn lemma_list_intro(f: spec_fn(int) -> ListItem, head: Option<u32>, lo: int, hi: int)
+    requires
+        match head {
+            None => forall|j: int| !l_vac(f, lo, hi, j),
+            Some(hd) => l_vac(f, lo, hi, hd as int) && forall|j: int| #[trigger] l_vac(f, lo, hi, j) ==> j >= hd,
+        },
+        forall|i: int| #[trigger] l_vac(f, lo, hi, i) ==>
+            in_vac(f, lo, hi, f(i).next as int) && f(f(i).next as int).prev == i && in_vac(f, lo, hi, f(i).prev as int) && f(f(i).prev as int).next == i,
+        forall|i: int, j: int| #[trigger] l_vac(f, lo, hi, i) && #[trigger] l_vac(f, lo, hi, j) && i < j ==> i < f(i).next <= j,
+        forall|i: int| #[trigger] l_vac(f, lo, hi, i) && f(i).next <= i ==> head == Some(f(i).next),
+    ensures list_ok(f, head, lo, hi),
+{ reveal(list_ok); }
+
 proof fn lemma_remove(f0: spec_fn(int) -> ListItem, f3: spec_fn(int) -> ListItem, head0: Option<u32>, head3: Option<u32>,
                       lo: int, hi: int, idx: int, p: int, n: int)
     requires
@@ -91,7 +123,8 @@ proof fn lemma_remove(f0: spec_fn(int) -> ListItem, f3: spec_fn(int) -> ListItem
         list_ok(f3, head3, lo, hi),
         match head3 { None => true, Some(x) => head0.is_some() && x >= head0.unwrap() && (head0.unwrap() == idx ==> x > idx) },
 {
-    reveal(list_ok);
+    lemma_links(f0, head0, lo, hi, idx);
+    lemma_head(f0, head0, lo, hi);
     assert(l_vac(f0, lo, hi, n) && l_vac(f0, lo, hi, p));
     assert forall|j: int| l_vac(f3, lo, hi, j) == (l_vac(f0, lo, hi, j) && j != idx) by { if lo <= j < hi { assert(f3(j) == cell_after_remove(f0(j), j, idx, p, n)); } }
     assert(head0.is_some());
@@ -100,49 +133,54 @@ proof fn lemma_remove(f0: spec_fn(int) -> ListItem, f3: spec_fn(int) -> ListItem
         assert(n == idx);
         assert forall|j: int| !l_vac(f3, lo, hi, j) by {
             if l_vac(f0, lo, hi, j) && j != idx {
-                if j > idx { assert(idx < f0(idx).next <= j); }
-                else { assert(j < f0(j).next <= idx); let m = f0(j).next as int; assert(l_vac(f0, lo, hi, m)); assert(f0(m).prev == j);
-                       if m != idx { assert(m < f0(m).next <= idx); } }
+                if j > idx { lemma_order(f0, head0, lo, hi, idx, j); }
+                else { lemma_wrap(f0, head0, lo, hi, idx); }
             }
         }
+        lemma_list_intro(f3, head3, lo, hi);
     } else {
-        assert(n != idx) by { if n == idx { assert(f0(n).prev == idx); } }
-        // pointers of the surviving cells
-        assert forall|i: int| l_vac(f3, lo, hi, i) implies f3(i).next == (if i == p { n as u32 } else { f0(i).next }) && f3(i).prev == (if i == n { p as u32 } else { f0(i).prev }) by {
-            assert(f3(i) == cell_after_remove(f0(i), i, idx, p, n));
-        }
-        // no surviving cell other than p points to idx with next; none other than n with prev
-        assert forall|i: int| l_vac(f3, lo, hi, i) && i != p implies f0(i).next != idx by { if f0(i).next == idx { assert(f0(f0(i).next as int).prev == i); } }
-        assert forall|i: int| l_vac(f3, lo, hi, i) && i != n implies f0(i).prev != idx by { if f0(i).prev == idx { assert(f0(f0(i).prev as int).next == i); } }
+        assert(n != idx) by { if n == idx { lemma_links(f0, head0, lo, hi, n); } }
+        lemma_links(f0, head0, lo, hi, p);
+        lemma_links(f0, head0, lo, hi, n);
         // (c)
         assert forall|i: int| #[trigger] l_vac(f3, lo, hi, i) implies
-            l_vac(f3, lo, hi, f3(i).next as int) && f3(f3(i).next as int).prev == i && l_vac(f3, lo, hi, f3(i).prev as int) && f3(f3(i).prev as int).next == i by {
+            in_vac(f3, lo, hi, f3(i).next as int) && f3(f3(i).next as int).prev == i && in_vac(f3, lo, hi, f3(i).prev as int) && f3(f3(i).prev as int).next == i by {
+            assert(l_vac(f0, lo, hi, i) && i != idx);
+            lemma_links(f0, head0, lo, hi, i);
+            assert(f3(i) == cell_after_remove(f0(i), i, idx, p, n));
+            let n0 = f0(i).next as int; let p0 = f0(i).prev as int;
             let nn = f3(i).next as int; let pp = f3(i).prev as int;
-            assert(l_vac(f0, lo, hi, i));
-            if i == p { assert(nn == n); } else { assert(nn == f0(i).next && nn != idx); assert(l_vac(f0, lo, hi, nn)); assert(f0(nn).prev == i); assert(nn != n) by { if nn == n { assert(f0(n).prev == idx); } } }
-            if i == n { assert(pp == p); } else { assert(pp == f0(i).prev && pp != idx); assert(l_vac(f0, lo, hi, pp)); assert(f0(pp).next == i); assert(pp != p) by { if pp == p { assert(f0(p).next == idx); } } }
-            assert(l_vac(f3, lo, hi, nn)); assert(l_vac(f3, lo, hi, pp));
+            assert(f3(n0) == cell_after_remove(f0(n0), n0, idx, p, n));
+            assert(f3(p0) == cell_after_remove(f0(p0), p0, idx, p, n));
+            assert(f3(n) == cell_after_remove(f0(n), n, idx, p, n));
+            assert(f3(p) == cell_after_remove(f0(p), p, idx, p, n));
+            if i == p { assert(nn == n); } else { assert(n0 != idx) by { if n0 == idx { } } assert(nn == n0); assert(n0 != n) by { if n0 == n { } } }
+            if i == n { assert(pp == p); } else { assert(p0 != idx) by { if p0 == idx { } } assert(pp == p0); assert(p0 != p) by { if p0 == p { } } }
         }
         // (e)
         assert forall|i: int, j: int| #[trigger] l_vac(f3, lo, hi, i) && #[trigger] l_vac(f3, lo, hi, j) && i < j implies i < f3(i).next <= j by {
-            assert(l_vac(f0, lo, hi, i) && l_vac(f0, lo, hi, j));
-            assert(i < f0(i).next <= j);
-            if i == p { assert(f0(p).next == idx); assert(idx < j); assert(idx < f0(idx).next <= j); }
+            lemma_order(f0, head0, lo, hi, i, j);
+            assert(f3(i) == cell_after_remove(f0(i), i, idx, p, n));
+            if i == p { assert(f0(p).next == idx); lemma_order(f0, head0, lo, hi, idx, j); }
         }
         // (f) and the head
         if h0 == idx {
-            assert forall|j: int| #[trigger] l_vac(f3, lo, hi, j) implies j >= n by { assert(j >= idx); assert(idx < f0(idx).next <= j); }
+            assert forall|j: int| #[trigger] l_vac(f3, lo, hi, j) implies j >= n by { lemma_order(f0, head0, lo, hi, idx, j); }
             assert forall|i: int| #[trigger] l_vac(f3, lo, hi, i) && f3(i).next <= i implies head3 == Some(f3(i).next) by {
-                if i != p { assert(head0 == Some(f0(i).next)); }
+                assert(f3(i) == cell_after_remove(f0(i), i, idx, p, n));
+                if i != p { lemma_wrap(f0, head0, lo, hi, i); lemma_links(f0, head0, lo, hi, i); }
             }
+            if n <= idx { lemma_wrap(f0, head0, lo, hi, idx); }
         } else {
             assert(l_vac(f3, lo, hi, h0));
             assert forall|i: int| #[trigger] l_vac(f3, lo, hi, i) && f3(i).next <= i implies head3 == Some(f3(i).next) by {
+                assert(f3(i) == cell_after_remove(f0(i), i, idx, p, n));
                 if i == p {
-                    if idx > p { assert(f0(idx).next <= idx); } else { assert(f0(p).next <= p); assert(head0 == Some(idx as u32)); }
-                }
+                    if idx > p { lemma_wrap(f0, head0, lo, hi, idx); } else { lemma_wrap(f0, head0, lo, hi, p); }
+                } else { lemma_wrap(f0, head0, lo, hi, i); }
             }
         }
+        lemma_list_intro(f3, head3, lo, hi);
     }
 }
 
@@ -153,7 +191,7 @@ proof fn lemma_congr(f: spec_fn(int) -> ListItem, g: spec_fn(int) -> ListItem, h
     reveal(list_ok);
     assert forall|j: int| l_vac(g, lo, hi, j) == l_vac(f, lo, hi, j) by { if lo <= j < hi { assert(f(j) == g(j)); } }
     assert forall|i: int| #[trigger] l_vac(g, lo, hi, i) implies
-        l_vac(g, lo, hi, g(i).next as int) && g(g(i).next as int).prev == i && l_vac(g, lo, hi, g(i).prev as int) && g(g(i).prev as int).next == i by {
+        in_vac(g, lo, hi, g(i).next as int) && g(g(i).next as int).prev == i && in_vac(g, lo, hi, g(i).prev as int) && g(g(i).prev as int).next == i by {
         assert(l_vac(f, lo, hi, i)); assert(f(i) == g(i));
         let n = f(i).next as int; let p = f(i).prev as int;
         assert(l_vac(f, lo, hi, n) && l_vac(f, lo, hi, p)); assert(f(n) == g(n)); assert(f(p) == g(p));
@@ -174,8 +212,10 @@ proof fn lemma_shrink(f: spec_fn(int) -> ListItem, head: Option<u32>, lo: int, l
     reveal(list_ok);
     assert forall|j: int| l_vac(f, lo2, hi, j) == l_vac(f, lo, hi, j) by { }
     assert forall|i: int| #[trigger] l_vac(f, lo2, hi, i) implies
-        l_vac(f, lo2, hi, f(i).next as int) && f(f(i).next as int).prev == i && l_vac(f, lo2, hi, f(i).prev as int) && f(f(i).prev as int).next == i by {
+        in_vac(f, lo2, hi, f(i).next as int) && f(f(i).next as int).prev == i && in_vac(f, lo2, hi, f(i).prev as int) && f(f(i).prev as int).next == i by {
         assert(l_vac(f, lo, hi, i));
+        assert(l_vac(f, lo, hi, f(i).next as int) == l_vac(f, lo2, hi, f(i).next as int));
+        assert(l_vac(f, lo, hi, f(i).prev as int) == l_vac(f, lo2, hi, f(i).prev as int));
     }
     assert forall|i: int, j: int| #[trigger] l_vac(f, lo2, hi, i) && #[trigger] l_vac(f, lo2, hi, j) && i < j implies i < f(i).next <= j by {
         assert(l_vac(f, lo, hi, i) && l_vac(f, lo, hi, j));
@@ -219,14 +259,14 @@ proof fn lemma_append_links(f0: spec_fn(int) -> ListItem, f4: spec_fn(int) -> Li
             used_base: f0(j).used_base, used_index: f0(j).used_index }),
         forall|j: int| mid <= j < hi ==> #[trigger] f4(j) == fresh_cell(j, mid, hi, f0(h).prev as int, h),
     ensures forall|i: int| #[trigger] l_vac(f4, lo, hi, i) ==>
-        l_vac(f4, lo, hi, f4(i).next as int) && f4(f4(i).next as int).prev == i && l_vac(f4, lo, hi, f4(i).prev as int) && f4(f4(i).prev as int).next == i,
+        in_vac(f4, lo, hi, f4(i).next as int) && f4(f4(i).next as int).prev == i && in_vac(f4, lo, hi, f4(i).prev as int) && f4(f4(i).prev as int).next == i,
 {
     lemma_append_setup(f0, f4, h, lo, mid, hi);
     let t = f0(h).prev as int;
     assert(f4(mid) == fresh_cell(mid, mid, hi, t, h)); assert(f4(hi - 1) == fresh_cell(hi - 1, mid, hi, t, h));
     assert(f4(t).next == mid && f4(h).prev == hi - 1);
     assert forall|i: int| #[trigger] l_vac(f4, lo, hi, i) implies
-        l_vac(f4, lo, hi, f4(i).next as int) && f4(f4(i).next as int).prev == i && l_vac(f4, lo, hi, f4(i).prev as int) && f4(f4(i).prev as int).next == i by {
+        in_vac(f4, lo, hi, f4(i).next as int) && f4(f4(i).next as int).prev == i && in_vac(f4, lo, hi, f4(i).prev as int) && f4(f4(i).prev as int).next == i by {
         if i < mid {
             assert(l_vac(f0, lo, mid, i));
             let n0 = f0(i).next as int; let p0 = f0(i).prev as int;
@@ -294,7 +334,7 @@ proof fn lemma_fresh(f4: spec_fn(int) -> ListItem, lo: int, mid: int, hi: int)
         if lo <= j < mid { assert(f4(j).used_index); } else if mid <= j < hi { assert(f4(j) == fresh_cell(j, mid, hi, hi - 1, mid)); }
     }
     assert forall|i: int| #[trigger] l_vac(f4, lo, hi, i) implies
-        l_vac(f4, lo, hi, f4(i).next as int) && f4(f4(i).next as int).prev == i && l_vac(f4, lo, hi, f4(i).prev as int) && f4(f4(i).prev as int).next == i by {
+        in_vac(f4, lo, hi, f4(i).next as int) && f4(f4(i).next as int).prev == i && in_vac(f4, lo, hi, f4(i).prev as int) && f4(f4(i).prev as int).next == i by {
         assert(f4(i) == fresh_cell(i, mid, hi, hi - 1, mid));
         assert(f4(mid) == fresh_cell(mid, mid, hi, hi - 1, mid)); assert(f4(hi - 1) == fresh_cell(hi - 1, mid, hi, hi - 1, mid));
         if i + 1 < hi { assert(f4(i + 1) == fresh_cell(i + 1, mid, hi, hi - 1, mid)); }
